@@ -130,9 +130,11 @@ def check_tree(acc, opens, src, tree, preds):
         outer.append(id(n))
         if len(outer) % 3 == 0:
             try:
-                w.extract(n, lambda m: True)   # nested use inside the loop, possibly abandoned early
+                # nested use inside the loop with a condition of its own, possibly abandoned early
+                w.extract(n, lambda m: type(m).__name__ == 'Identifier')
             except TypeError:
                 pass
+            sum(1 for _ in w.filter(n, lambda m: False))
             sum(1 for _ in w.walk(n))
     if outer != ids:
         acc.fail(None, case, {'bucket': 'nested_traversal_disturbs_outer_one', 'yielded': len(outer),
